@@ -153,6 +153,9 @@ func (c06) Generate(r *rand.Rand, t string) []*Case {
 	// the shapes of the File's package name
 	out = append(out, c06LayoutCases(r, t)...)
 	out = append(out, c06PkgNameCases(r, t)...)
+	// path-shapes (c06_paths.go): the shapes of the own path and of dot-imported paths (major
+	// version suffix, vendor, internal, .git, upper case, gopkg.in) x their prefixes / extensions
+	out = append(out, c06PathShapeCases(r, t)...)
 	return out
 }
 
